@@ -585,6 +585,17 @@ def D6(m, R):
             if len(first) != 1 or [norm(a_) for a_ in first[0].value.args] != [old] or not norm(first[0].value.func.value).endswith('.' + TEXT):
                 problems.append('initial search is %s, expected TEXT.find(%s)' % ([short(n) for n in first], old))
         R.check(not problems, f, lp, 'replace: obj = obj[:idx] + repl + obj[idx+len(old):] with the three replacement forms', '; '.join(problems), construct='replace rebuild')
+        # the text changes only through the rebuild (slices + concatenation carry the settings along)
+        raw = []
+        for n in f.walk():
+            tg = n.targets[0] if isinstance(n, ast.Assign) else n.target if isinstance(n, ast.AugAssign) else None
+            if isinstance(tg, ast.Attribute) and tg.attr == TEXT:
+                inpl = any(isinstance(p_, ast.If) and is_name(p_.test, inplace) for p_ in _parents(n))
+                if not (inpl and isinstance(n, ast.Assign) and norm(n.value).endswith('.' + TEXT) and is_name(tg.value, selfn)):
+                    raw.append(n)
+        R.check(not raw, f, raw[0] if raw else lp, 'the text is only ever changed by rebuilding the string from slices',
+                '`%s` rewrites the text directly: the settings stay where they were, so replaced characters keep the settings of the old ones' % (short(raw[0]) if raw else ''),
+                construct='replace raw text write')
         # in-place transfer
         tail = [n for n in f.body if isinstance(n, ast.If) and is_name(n.test, inplace)]
         ok = bool(tail) and sorted(norm(x.targets[0]) for x in tail[0].body if isinstance(x, ast.Assign)) == sorted(['%s.%s' % (selfn, TEXT), '%s.%s' % (selfn, TABLE)]) \
